@@ -4,7 +4,7 @@ Require Extraction.
 Require Import ExtrOcamlBasic.
 From Coq Require Import List NArith.
 From FT Require Import Model.Base Model.Codec Model.Local Model.Records Model.Spsc Model.Collector
-     Model.System Model.Jaeger Model.Reporters Oracles.OC12 Oracles.OJaeger Oracles.OTime Oracles.OSys Oracles.OReporters.
+     Model.System Model.Jaeger Model.Reporters Model.FormatStr Oracles.OC12 Oracles.OJaeger Oracles.OTime Oracles.OSys Oracles.OReporters.
 Extraction Language OCaml.
 Extraction "model.ml"
   N.add N.mul N.sub N.eqb N.ltb N.leb N.of_nat N.to_nat N.compare
@@ -15,4 +15,5 @@ Extraction "model.ml"
   report_datagrams encode_records P_C19_jaeger P_C20
   P_C18 order_ok dur_ok wall_ok
   oracle
-  P_C19_datadog P_C19_otel enc_dd_body rd_dd_body.
+  P_C19_datadog P_C19_otel enc_dd_body rd_dd_body
+  unescape scan.
